@@ -983,6 +983,9 @@ async fn exec(ctx: &mut Ctx, line: &str) -> OpResult {
             ))
             .await;
             h.abort();
+            // dispatches the loop has started are detached tasks: give them (real) time to finish, so that their
+            // POSTs and acknowledgements belong to this LOOP and not to whatever comes next
+            tokio::time::sleep(Duration::from_millis(150)).await;
             for _ in 0..16 {
                 tokio::task::yield_now().await;
             }
